@@ -120,3 +120,12 @@ func (t *Tape) Used() []uint32 {
 
 // Pos returns the number of draws made.
 func (t *Tape) Pos() int { return t.pos }
+
+// Fork draws one value from this tape and returns an independent generating
+// tape seeded with it. Goroutines that run concurrently with others (actors,
+// connections, files) draw from their own fork so that the order in which
+// they happen to run within one scheduler step cannot change anyone's values;
+// a replay regenerates every fork from the recorded seed.
+func (t *Tape) Fork() *Tape {
+	return NewTape(int64(t.Next(1<<31-1)) + 1)
+}
